@@ -31,7 +31,7 @@ class C11(PropBase):
                    "ends the run as 'premise broken' (that is C08's alarm)",
                    "messages sent towards a peer that closed itself (its own unbind / notice of disconnection) need not arrive",
                    "custom control/filter/credential types are registered on both sessions or not used"]
-    RUNS = {"quick": 3200, "thorough": 100000}
+    RUNS = {"quick": 3200, "thorough": 60000}
     STEPS = {"quick": 110, "thorough": 260}
     REQUIRED_REACH = ("midpdu_between_calls", "two_in_flight", "response_while_request_in_pipe", "quiescence_checked",
                       "in_progress_probe_ids", "sasl_multistep_completed", "bind_after_search_done", "terminated_by_unbind",
